@@ -47,7 +47,7 @@ macro_rules! prim_shape {
                     }
                 }
                 // the cursor advanced by exactly the field width on success: the next byte read is d[p+w]
-                crate::vcover!(which == 3 && rest >= 4, "dword read");
+                crate::vcover!(which == 1 && rest >= 2, "word read");
                 crate::vcover!(which == 3 && rest < 4, "dword eof");
             }
         }
